@@ -625,6 +625,10 @@ class C17(Check):
         if rng.random() < 0.1 and pre and "y" in answers:
             tgt = rng.choice(sorted(pre))
             op["fault"] = {"path": tgt, "errno": rng.choice([28, 13])}
+        plain = sorted(k for k, how in pre.items()
+                       if how in ("random", "keep", "readonly"))
+        if plain and rng.random() < 0.04:
+            op["fd1_to"] = rng.choice(plain)
         return op
 
     def make_case(self, rng, tier, index):
@@ -987,8 +991,29 @@ class C17(Check):
                         late = dict(op["late"], data=bytes(
                             prng.getrandbits(8)
                             for _ in range(prng.choice([40, 40, 0]))))
-                    events, exc = sb.run(fn, op.get("answers", ()),
-                                         op.get("fault"), late=late)
+                    saved_fd = None
+                    tgt = op.get("fd1_to")
+                    if tgt and os.path.isfile(tgt) and not os.path.islink(tgt):
+                        # `evo_x ... --save_y report.csv >> report.csv`: the
+                        # process' standard output is appended to the very
+                        # file it is asked to save to
+                        try:
+                            fd = os.open(tgt, os.O_WRONLY | os.O_APPEND)
+                        except PermissionError:
+                            fd = None  # write-protected: the shell refuses
+                        if fd is not None:
+                            saved_fd = os.dup(1)
+                            os.dup2(fd, 1)
+                            os.close(fd)
+                            res.stats[
+                                "probe.stdout_appends_to_the_target"] += 1
+                    try:
+                        events, exc = sb.run(fn, op.get("answers", ()),
+                                             op.get("fault"), late=late)
+                    finally:
+                        if saved_fd is not None:
+                            os.dup2(saved_fd, 1)
+                            os.close(saved_fd)
                 plt.close("all")
                 S.clear()
                 S.update(saved_settings)
